@@ -335,6 +335,8 @@ func rUniverse() []string {
 		return []string{"a", "a/a", "a/b"}
 	case 4: // names that share a string prefix without being related (a vs ab)
 		return []string{"a", "ab", "ab/a"}
+	case 5: // names that begin with a dot (ordinary names: only "." and ".." are special)
+		return []string{".k", "b", ".k/.a"}
 	}
 	return []string{"a", "b", "a/a"}
 }
@@ -347,6 +349,8 @@ func rCandidates() []string {
 		return []string{".", "a", "c", "a/a", "a/b", "a/c"}
 	case 4:
 		return []string{".", "a", "ab", "abc", "a/a", "a/ab", "ab/a", "ab/c"}
+	case 5:
+		return []string{".", ".k", "b", "...", ".k/.a", ".k/c", "b/.c", ".c"}
 	}
 	return []string{".", "a", "b", "c", "a/a", "a/c", "c/c", "a/a/a", "a/a/c", "b/c"}
 }
